@@ -126,14 +126,14 @@ partial def loop (h : IO.FS.Stream) (sel : List String) (c : Cur) : IO Unit := d
     let c := match parseRaw line with
       | some rl => { c with res := ResMap.feed c.res (c.nlines + 1) rl, job := JobMap.feed c.job (c.nlines + 1) rl,
                                sig := SigMap.feed c.sig (c.nlines + 1) rl,
-                               sig2 := SigMap2.feed c.sig2 (c.nlines + 1) rl,
+                               sig2 := SigMap2.feed (c.params.kind == "plain" && (c.params.queues == ["pers"] || c.params.queues == ["persprio"])) c.sig2 (c.nlines + 1) rl,
                                metr := MetrMap.feed c.params.kind c.metr (c.nlines + 1) rl,
                                trim := TrimMap.feed c.trim (c.nlines + 1) rl,
                                reap := ReapMap.feed c.params.minIdle c.reap (c.nlines + 1) rl,
                                disp := DispMap.feed c.disp (c.nlines + 1) rl,
                                race := (if sel.contains "C19" then RaceMap.feed c.race rl else c.race),
                                ack := AckMap.feed c.ack (c.nlines + 1) rl,
-                               wake := WakeMap.feed c.wake (c.nlines + 1) rl,
+                               wake := WakeMap.feed (c.params.kind == "plain" && (c.params.queues == ["pers"] || c.params.queues == ["persprio"])) c.wake (c.nlines + 1) rl,
                                pool := PoolMap.feed c.pool (c.nlines + 1) rl }
       | none => c
     match parseObs line with
@@ -144,7 +144,7 @@ partial def loop (h : IO.FS.Stream) (sel : List String) (c : Cur) : IO Unit := d
       loop h sel { c with obs := c.obs.push (.ret g cid cl' r), nlines := c.nlines + 1, calls := c.calls.filter (·.1 != cid) }
     | some .recover =>
       -- a fresh process: object names start again, so the model replays start again
-      loop h sel { c with obs := c.obs.push .recover, nlines := c.nlines + 1, res := .ok (Res.init 1), job := .ok {}, sig := .ok {}, sig2 := .ok {}, metr := .ok {}, trim := .ok {}, reap := .ok {}, disp := .ok {}, wake := .ok {}, pool := .ok {}, calls := [] }
+      loop h sel { c with obs := c.obs.push .recover, nlines := c.nlines + 1, res := .ok (Res.init 1), job := .ok {}, sig := .ok {}, sig2 := (if c.params.queues.any (fun q => q.startsWith "pers" || q.startsWith "dist") then .na "NA recovered adapter (its contents precede this process)" else .ok {}), metr := .ok {}, trim := .ok {}, reap := .ok {}, disp := .ok {}, wake := (if c.params.queues.any (fun q => q.startsWith "pers" || q.startsWith "dist") then .na "NA recovered adapter" else .ok {}), pool := .ok {}, calls := [] }
     | some o =>
       let obs := match parseObs2 line with | some o2 => (c.obs.push o).push o2 | none => c.obs.push o
       loop h sel { c with obs := obs, nlines := c.nlines + 1 }
